@@ -11,6 +11,21 @@ def itemOut : StreamItem → String
 
 def allValid (l : List Bytes) : Bool := l.all validUtf8
 
+/-- Follow `next_page_token` from the first page to the end. -/
+def walkPages (sys : Sys) (mk : Bytes → Req) : Nat → Bytes → List String → String
+  | 0, _, acc => " | ".intercalate acc.reverse
+  | fuel + 1, tok, acc =>
+    match (sys.rpc (mk tok)).2 with
+    | .names ns next =>
+      let acc' := ("ok " ++ joinList (ns.map hexOfBytes) ",") :: acc
+      if next.isEmpty then " | ".intercalate acc'.reverse
+      else walkPages sys mk fuel (next.map UInt8.ofNat) acc'
+    | .subs rs next =>
+      let acc' := ("ok " ++ joinList (rs.map subResOut) ",") :: acc
+      if next.isEmpty then " | ".intercalate acc'.reverse
+      else walkPages sys mk fuel (next.map UInt8.ofNat) acc'
+    | r => " | ".intercalate ((respOut r) :: acc).reverse
+
 /-- One op. `none` state = no `new` yet. -/
 def seqStep (sys : Sys) (line : String) : Sys × String :=
   match line.trimAscii.toString.splitOn " " with
@@ -36,6 +51,18 @@ def seqStep (sys : Sys) (line : String) : Sys × String :=
     let pb := bytesOfHex t; let tb := bytesOfHex tok
     if !allValid [pb, tb] then (sys, "skip") else
     let (s, r) := sys.rpc (.listTopicSubs pb (parseInt sz) tb); (s, respOut r)
+  | ["wtopics", a, sz] =>
+    let b := bytesOfHex a
+    if !validUtf8 b then (sys, "skip") else
+    (sys, walkPages sys (fun tok => .listTopics b (parseInt sz) tok) 100000 [] [])
+  | ["wsubs", a, sz] =>
+    let b := bytesOfHex a
+    if !validUtf8 b then (sys, "skip") else
+    (sys, walkPages sys (fun tok => .listSubs b (parseInt sz) tok) 100000 [] [])
+  | ["wtsubs", a, sz] =>
+    let b := bytesOfHex a
+    if !validUtf8 b then (sys, "skip") else
+    (sys, walkPages sys (fun tok => .listTopicSubs b (parseInt sz) tok) 100000 [] [])
   | ["csub", n, t, dl, push] =>
     let nb := bytesOfHex n; let tb := bytesOfHex t
     if !allValid [nb, tb] then (sys, "skip") else
